@@ -1,4 +1,4 @@
-(* C11 — the event grammar under prompt closes, Opened needs an accepted inbound, Closed on disconnect. *)
+(* C11 — the event grammar, quiet handlers, Opened needs an accepted inbound (the alternation proof is in PHInv.v). *)
 From Coq Require Import List NArith Bool Lia.
 From V.C11 Require Import Model PBase.
 Import ListNotations.
@@ -14,6 +14,7 @@ Fixpoint grammar (h : peer -> bool) (l : list uev) : option (peer -> bool) :=
   | UFail p _ :: t => if h p then None else grammar h t
   | UValidate _ :: t => grammar h t
   | UNotif p :: t => if h p then grammar h t else None
+  | UClosedT _ _ :: _ => None   (* the report of a Connection task is never handed to the user as such *)
   end.
 
 Lemma grammar_app h l1 l2 :
@@ -83,7 +84,7 @@ Lemma quiet_on_open c s p : quiet s (on_open c s p).
 Proof.
   unfold on_open. destruct (ps s p) as [x|] eqn:Hp.
   - destruct x as [|b|po| |y|d o i|k]; try (quiet_tac; fail).
-    destruct po as [y|]; [quiet_tac|]. svc_tac s p.
+    unfold reusable. destruct po as [y|]; [destruct (pend_find y (pend s)); [quiet_tac|]|]; svc_tac s p.
   - destruct (should_dial c); cbn [negb]; [destruct (dialable c p)|]; quiet_tac.
 Qed.
 
@@ -170,34 +171,6 @@ Proof.
   destruct o; try (quiet_tac; fail). destruct i; quiet_tac.
 Qed.
 
-(* ------------------------------------------------------------------ prompt environment *)
-Definition prompt_op (o : op) : bool :=
-  match o with Gate _ => false | TaskDie _ g | NotifyDie _ g => negb g | _ => true end.
-
-Record AInv (s : st) (h : peer -> bool) : Prop := mkAInv {
-  a_task : forall t, In t (tasks s) ->
-             t_closing t = None /\ t_gated t = false /\ ps s (t_peer t) = Some (Open (t_id t)) /\
-             t_id t < ntask s /\ lastt s (t_peer t) = Some (t_id t);
-  a_nodup : NoDup (map t_id (tasks s));
-  a_open : forall p k, ps s p = Some (Open k) -> exists t, In t (tasks s) /\ t_id t = k /\ t_peer t = p;
-  a_last : forall p k, lastt s p = Some k -> k < ntask s /\ forall t, In t (tasks s) -> t_id t = k -> t_peer t = p;
-  a_h : forall p, h p = is_open (ps s p);
-  a_hopen : forall p, hopen s p = h p
-}.
-
-Lemma AInv_init : AInv init (fun _ => false).
-Proof. constructor; cbn; intros; try tauto; try discriminate; auto. constructor. Qed.
-
-Lemma AInv_quiet s s' h :
-  AInv s h -> tasks s' = tasks s -> lastt s' = lastt s -> ntask s' = ntask s -> hopen s' = hopen s ->
-  same_open s s' -> AInv s' h.
-Proof.
-  intros [A1 A2 A3 A4 A5 A6] T L N0 HO SO. constructor; rewrite ?T, ?L, ?N0, ?HO; auto.
-  - intros t Ht. destruct (A1 t Ht) as (B1 & B2 & B3 & B4 & B5). repeat split; auto. now apply SO.
-  - intros p k Hk. apply SO in Hk. auto.
-  - intros p. rewrite A5. symmetry. now apply same_open_is_open.
-Qed.
-
 Lemma grammar_quiet s h ev :
   (forall p, h p = is_open (ps s p)) -> Forall (quiet_ev s) ev -> grammar h ev = Some h.
 Proof.
@@ -251,154 +224,12 @@ Proof.
   induction l as [|a l IH]; cbn; auto. intros H. rewrite (H a) by auto. apply IH; auto.
 Qed.
 
-(* the handle's sink table follows the gate: a stored sink is the one of the newest task of the peer *)
-Definition KInv (s : st) : Prop :=
-  forall p k, hsink s p = Some k -> hopen s p = true /\ lastt s p = Some k.
-
-Lemma AInv_hsink s h p v : AInv s h -> AInv (set_hsink s p v) h.
-Proof. intros [A1 A2 A3 A4 A5 A6]. constructor; auto. Qed.
-
-Lemma step_of_quiet c s o h s1 ev calls s' ev' calls' :
-  AInv s h -> KInv s -> (forall q, In q (notifs_of s o) -> h q = true) ->
-  main_handler c s o = Some (s1, ev, calls) -> quiet s (Some (s1, ev, calls)) ->
-  step c s o = Some (s', ev', calls') -> grammar h ev' = Some h /\ AInv s' h /\ KInv s'.
-Proof.
-  intros A KI NF M Q. unfold step. rewrite M. pose proof (hsink_main _ _ _ _ _ _ M) as HS.
-  destruct Q as (T & L & N0 & HO & SO & F).
-  destruct (drain s1 ev) as [[s2 dr] ks] eqn:D.
-  destruct (drain_quiet s ev F _ _ _ _ D) as (-> & P2 & T2 & L2 & N2 & HO2 & _ & HS2).
-  rewrite filter_all by (intros q Hq; rewrite HO2, HO; destruct A as [_ _ _ _ _ A6]; rewrite A6; auto).
-  cbn [kill_tasks app drain].
-  intros H; inversion H; subst. rewrite app_nil_r.
-  split; [|split].
-  - rewrite grammar_app. erewrite grammar_quiet; eauto; [|apply A]. now apply grammar_notifs.
-  - eapply AInv_quiet; eauto; try congruence.
-    intros q k. rewrite P2. apply SO.
-  - intros q k Hq. rewrite HS2, HS in Hq. rewrite HO2, HO, L2, L. apply KI, Hq.
-Qed.
-
-(* ---- a step that ends the open stream of p ---- *)
-Definition closes (s : st) (p : peer) (s1 : st) : Prop :=
-  exists k, ps s p = Some (Open k) /\ tasks s1 = remove_task k (tasks s) /\ lastt s1 = lastt s /\
-            ntask s1 = ntask s /\ hopen s1 = hopen s /\ is_open (ps s1 p) = false /\
-            (forall q, q <> p -> ps s1 q = ps s q).
-
-Lemma AInv_closes s h p s1 :
-  AInv s h -> closes s p s1 -> AInv (set_hopen s1 p false) (upd h p false) /\ h p = true /\
-  (exists k, lastt s1 p = Some k /\ running s1 k = false) /\ hopen s1 p = true.
-Proof.
-  intros [A1 A2 A3 A4 A5 A6] (k & Hp & T & L & N0 & HO & NO & FR).
-  destruct (A3 p k Hp) as (t0 & In0 & Id0 & Pe0).
-  destruct (A1 t0 In0) as (_ & _ & _ & _ & La0). rewrite Pe0, Id0 in La0.
-  assert (Hh : h p = true) by (rewrite A5, Hp; reflexivity).
-  split; [|split; [auto|split]].
-  - constructor; setters; rewrite ?T, ?L, ?N0.
-    + intros t Ht. apply in_remove in Ht. destruct Ht as [Ht Hne].
-      destruct (A1 t Ht) as (B1 & B2 & B3 & B4 & B5). repeat split; auto.
-      rewrite FR; auto. intros E. rewrite E, Hp in B3. inversion B3. congruence.
-    + now apply nodup_remove.
-    + intros q k' Hq. assert (q <> p) by (intros ->; rewrite Hq in NO; discriminate).
-      rewrite FR in Hq by auto. destruct (A3 q k' Hq) as (t & In1 & Id1 & Pe1).
-      exists t. repeat split; auto. apply in_remove. split; auto. intros E.
-      assert (t = t0) by (eapply nodup_id_eq; eauto; congruence). subst t. congruence.
-    + intros q k' Hq. destruct (A4 q k' Hq) as [B1 B2]. split; auto.
-      intros t Ht. apply in_remove in Ht. apply B2. tauto.
-    + intros q. unfold upd. destruct (q =? p) eqn:E.
-      * apply N.eqb_eq in E. subst q. now rewrite NO.
-      * apply N.eqb_neq in E. rewrite FR by auto. apply A5.
-    + intros q. rewrite HO. unfold upd. destruct (q =? p); auto.
-  - exists k. rewrite L. split; auto. unfold running. rewrite T, find_task_remove. reflexivity.
-  - rewrite HO, A6. exact Hh.
-Qed.
-
-Lemma step_of_closes c s o h p s1 calls s' ev' calls' :
-  AInv s h -> KInv s -> (forall q, In q (notifs_of s o) -> q = p) ->
-  main_handler c s o = Some (s1, [UClosed p], calls) -> closes s p s1 ->
-  step c s o = Some (s', ev', calls') ->
-  grammar h ev' = Some (upd h p false) /\ AInv s' (upd h p false) /\ KInv s'.
-Proof.
-  intros A KI NF M C. unfold step. rewrite M. pose proof (hsink_main _ _ _ _ _ _ M) as HS.
-  destruct (AInv_closes s h p s1 A C) as (A' & Hh & (k & Lk & Rk) & HO).
-  destruct C as (k0 & _ & _ & L1 & _ & HO1 & _).
-  assert (KL : match hsink s1 p with
-               | Some k1 => if running s1 k1 && negb (match usink s1 p with Some k' => k' =? k1 | None => false end)
-                            then [k1] else []
-               | None => []
-               end = []).
-  { destruct (hsink s1 p) as [k1|] eqn:E; auto. rewrite HS in E. destruct (KI p k1 E) as [_ E2].
-    rewrite <- L1, Lk in E2. injection E2 as <-. rewrite Rk. reflexivity. }
-  cbn [drain]. rewrite KL.
-  rewrite filter_none by (intros q Hq; apply NF in Hq; subst q; setters; apply upd_same).
-  cbn [map app kill_tasks drain].
-  intros H; inversion H; subst. cbn [app grammar]. rewrite Hh. split; auto. split.
-  - apply AInv_hsink. exact A'.
-  - intros q k1 Hq. setters. unfold upd in *. destruct (q =? p); [discriminate|].
-    rewrite HS in Hq. rewrite HO1, L1. apply KI, Hq.
-Qed.
-
 (* ---- a step that opens a stream to p ---- *)
 Definition opens (s : st) (p : peer) (s1 : st) : Prop :=
   is_open (ps s p) = false /\ ps s1 p = Some (Open (ntask s)) /\
   tasks s1 = tasks s ++ [mkTask (ntask s) p None false] /\
   lastt s1 = upd (lastt s) p (Some (ntask s)) /\ ntask s1 = ntask s + 1 /\ hopen s1 = hopen s /\
   (forall q, q <> p -> ps s1 q = ps s q).
-
-Lemma AInv_opens s h p s1 :
-  AInv s h -> opens s p s1 -> AInv (set_hopen s1 p true) (upd h p true) /\ h p = false.
-Proof.
-  intros [A1 A2 A3 A4 A5 A6] (NO & Hp & T & L & N0 & HO & FR).
-  assert (Hh : h p = false) by (rewrite A5; exact NO).
-  assert (Fresh : forall t, In t (tasks s) -> t_id t <> ntask s /\ t_peer t <> p).
-  { intros t Ht. destruct (A1 t Ht) as (_ & _ & B3 & B4 & _). split; [lia|].
-    intros E. rewrite E in B3. rewrite B3 in NO. discriminate. }
-  split; auto. constructor; setters; rewrite ?T, ?L, ?N0.
-  - intros t Ht. apply in_app_or in Ht. destruct Ht as [Ht|[<-|[]]].
-    + destruct (A1 t Ht) as (B1 & B2 & B3 & B4 & B5). destruct (Fresh t Ht) as [F1 F2].
-      repeat split; auto; try lia. rewrite FR; auto. rewrite upd_other; auto.
-    + cbn. repeat split; auto; try lia. now rewrite upd_same.
-  - rewrite map_app. cbn. apply NoDup_app_single; auto.
-    intros H. apply in_map_iff in H. destruct H as (t & E & Ht). destruct (Fresh t Ht). congruence.
-  - intros q k Hq. destruct (N.eq_dec q p) as [->|Hne].
-    + rewrite Hp in Hq. inversion Hq; subst. eexists. split; [apply in_or_app; right; left; reflexivity|]. auto.
-    + rewrite FR in Hq by auto. destruct (A3 q k Hq) as (t & In1 & Id1 & Pe1).
-      exists t. repeat split; auto. apply in_or_app. auto.
-  - intros q k Hq. destruct (N.eq_dec q p) as [->|Hne].
-    + rewrite upd_same in Hq. inversion Hq; subst. split; [lia|].
-      intros t Ht Id. apply in_app_or in Ht. destruct Ht as [Ht|[<-|[]]]; auto.
-      destruct (Fresh t Ht). contradiction.
-    + rewrite upd_other in Hq by auto. destruct (A4 q k Hq) as [B1 B2]. split; [lia|].
-      intros t Ht Id. apply in_app_or in Ht. destruct Ht as [Ht|[<-|[]]]; auto.
-      cbn in Id. lia.
-  - intros q. unfold upd. destruct (q =? p) eqn:E.
-    + apply N.eqb_eq in E. subst q. now rewrite Hp.
-    + apply N.eqb_neq in E. rewrite FR by auto. apply A5.
-  - intros q. rewrite HO. unfold upd. destruct (q =? p); auto.
-Qed.
-
-Lemma step_of_opens c s o h p d s1 calls s' ev' calls' :
-  AInv s h -> KInv s -> notifs_of s o = [] -> main_handler c s o = Some (s1, [UOpened p d], calls) -> opens s p s1 ->
-  step c s o = Some (s', ev', calls') ->
-  grammar h ev' = Some (upd h p true) /\ AInv s' (upd h p true) /\ KInv s'.
-Proof.
-  intros A KI NF M C. unfold step. rewrite M, NF. cbn [filter map]. pose proof (hsink_main _ _ _ _ _ _ M) as HS.
-  destruct (AInv_opens s h p s1 A C) as (A' & Hh).
-  destruct C as (_ & _ & _ & L1 & _ & HO1 & _).
-  cbn [drain app kill_tasks].
-  intros H; inversion H; subst. cbn [app grammar]. rewrite Hh. split; auto. split.
-  - apply AInv_hsink. exact A'.
-  - intros q k1 Hq. setters. unfold upd in *. destruct (q =? p) eqn:E.
-    + apply N.eqb_eq in E. subst q. split; auto.
-    + rewrite HS in Hq. rewrite HO1, L1, E. apply KI, Hq.
-Qed.
-
-Inductive shape (s : st) : res -> Prop :=
-| sh_none : shape s None
-| sh_quiet s1 ev cl : quiet s (Some (s1, ev, cl)) -> shape s (Some (s1, ev, cl))
-| sh_closes p s1 cl : closes s p s1 -> shape s (Some (s1, [UClosed p], cl))
-| sh_opens p d s1 cl : opens s p s1 -> shape s (Some (s1, [UOpened p d], cl)).
-
-Lemma shape_of_quiet s r : quiet s r -> shape s r.
-Proof. destruct r as [[[s1 ev] cl]|]; intros; constructor; auto. Qed.
 
 (* the frame: fields the invariant does not look at may differ *)
 Definition same_core (s s0 : st) : Prop :=
@@ -410,121 +241,10 @@ Proof.
   intros q k. rewrite P. tauto.
 Qed.
 
-Lemma closes_frame s s0 p s1 : same_core s s0 -> closes s0 p s1 -> closes s p s1.
-Proof.
-  intros (P & T & L & N0 & HO) (k & H1 & H2 & H3 & H4 & H5 & H6 & H7).
-  exists k. rewrite <- P, <- T, <- L, <- N0, <- HO. repeat split; auto.
-Qed.
-
 Lemma opens_frame s s0 p s1 : same_core s s0 -> opens s0 p s1 -> opens s p s1.
 Proof.
   intros (P & T & L & N0 & HO) (H1 & H2 & H3 & H4 & H5 & H6 & H7).
   unfold opens. rewrite <- P, <- T, <- L, <- N0, <- HO. repeat split; auto.
-Qed.
-
-Lemma shape_frame s s0 r : same_core s s0 -> shape s0 r -> shape s r.
-Proof.
-  intros C H. destruct H.
-  - constructor.
-  - apply sh_quiet. eapply quiet_frame; eauto.
-  - apply sh_closes. eapply closes_frame; eauto.
-  - apply sh_opens. eapply opens_frame; eauto.
-Qed.
-
-Lemma signal_open s h s0 p k :
-  AInv s h -> ps s p = Some (Open k) -> tasks s0 = tasks s ->
-  signal s0 k = (set_tasks s0 (remove_task k (tasks s)), [UClosed p]).
-Proof.
-  intros [A1 A2 A3 A4 A5 A6] Hp T.
-  destruct (A3 p k Hp) as (t0 & In0 & Id0 & Pe0).
-  destruct (find_task_in _ _ In0) as (t' & F). rewrite Id0 in F.
-  destruct (find_task_some _ _ _ F) as [In1 Id1].
-  assert (t' = t0) by (eapply nodup_id_eq; eauto; congruence). subst t'.
-  destruct (A1 t0 In0) as (B1 & B2 & _).
-  unfold signal. rewrite T, F, B1, B2, Pe0. reflexivity.
-Qed.
-
-Lemma shape_on_closed s h p : AInv s h -> shape s (on_closed s p).
-Proof.
-  intros A. unfold on_closed. setters.
-  destruct (ps s p) as [x|] eqn:Hp; [|constructor].
-  destruct x as [|b|po| |y|d o i|k]; try (apply sh_quiet; quiet_tac; fail).
-  - destruct o, i; apply sh_quiet; quiet_tac.
-  - erewrite (signal_open s h _ p k A Hp) by reflexivity.
-    apply sh_closes. exists k. setters. repeat apply conj; auto.
-    + now rewrite upd_same.
-    + intros q Hq. now rewrite upd_other.
-Qed.
-
-Lemma shape_on_close s h p : AInv s h -> shape s (on_close s p).
-Proof.
-  intros A. unfold on_close.
-  destruct (ps s p) as [x|] eqn:Hp; [|apply sh_quiet; quiet_tac].
-  destruct x as [|b|po| |y|d o i|k]; try (apply sh_quiet; quiet_tac; fail).
-  erewrite (signal_open s h s p k A Hp) by reflexivity.
-  apply sh_closes. exists k. setters. repeat apply conj; auto.
-  - now rewrite upd_same.
-  - intros q Hq. now rewrite upd_other.
-Qed.
-
-Lemma shape_hs_finish s0 s p :
-  tasks s = tasks s0 -> lastt s = lastt s0 -> ntask s = ntask s0 -> hopen s = hopen s0 ->
-  is_open (ps s0 p) = false -> (forall q, q <> p -> ps s q = ps s0 q) ->
-  is_open (ps s p) = false ->
-  shape s0 (hs_finish s p).
-Proof.
-  intros T L N0 HO NO FR NO2. unfold hs_finish.
-  assert (Q : quiet s0 (ok s)).
-  { unfold quiet, ok. refine (conj _ (conj _ (conj _ (conj _ (conj _ _))))); auto.
-    intros r k. destruct (N.eq_dec r p) as [->|Hne].
-    - split; intros H; rewrite H in *; discriminate.
-    - rewrite FR by auto. tauto. }
-  destruct (ps s p) as [x|] eqn:Hp; [|apply sh_quiet; exact Q].
-  destruct x as [|b|po| |y|d o i|k]; try (apply sh_quiet; exact Q).
-  destruct o; try (apply sh_quiet; exact Q). destruct i; try (apply sh_quiet; exact Q).
-  apply sh_opens. unfold opens, spawn_task. setters. rewrite T, L, N0, HO.
-  repeat apply conj; auto.
-  - now rewrite upd_same.
-  - intros r Hr. rewrite upd_other; auto.
-Qed.
-
-Ltac finish_tac Hp :=
-  apply shape_hs_finish; setters; auto;
-  [ rewrite Hp; reflexivity
-  | let r := fresh "r" in let Hr := fresh "Hr" in intros r Hr; now rewrite upd_other
-  | now rewrite upd_same ].
-
-Lemma shape_on_hs_out_ok s p : shape s (on_hs_out_ok s p).
-Proof.
-  unfold on_hs_out_ok. destruct (ps s p) as [x|] eqn:Hp; [|constructor].
-  destruct x as [|b|po| |y|d o i|k]; try constructor.
-  destruct o; try constructor. finish_tac Hp.
-Qed.
-
-Lemma shape_on_hs_in_ok c s p : shape s (on_hs_in_ok c s p).
-Proof.
-  unfold on_hs_in_ok. destruct (ps s p) as [x|] eqn:Hp; [|constructor].
-  destruct x as [|b|po| |y|d o i|k]; try constructor.
-  destruct i; try constructor.
-  - destruct (negb (o_closed o) && auto_accept c); apply sh_quiet; quiet_tac.
-  - finish_tac Hp.
-Qed.
-
-Lemma map_ungate_id p l :
-  (forall t, In t l -> t_closing t = None /\ t_gated t = false) ->
-  map (fun t => if t_peer t =? p then mkTask (t_id t) (t_peer t) (t_closing t) false else t) l = l.
-Proof.
-  induction l as [|a l IH]; cbn; auto. intros H. rewrite IH by auto.
-  destruct (H a (or_introl eq_refl)) as [_ G]. destruct a as [i q cl g]; cbn in *. subst g.
-  destruct (q =? p); reflexivity.
-Qed.
-
-Lemma finish_tasks_id p l :
-  (forall t, In t l -> t_closing t = None /\ t_gated t = false) -> finish_tasks p l = (l, [], 0).
-Proof.
-  induction l as [|a l IH]; cbn; auto. intros H. rewrite IH by auto.
-  destruct (H a (or_introl eq_refl)) as [C G]. rewrite C, G.
-  destruct (t_peer a =? p); reflexivity.
 Qed.
 
 Lemma quiet_ok_frame s s0 : same_core s s0 -> quiet s (ok s0).
@@ -533,135 +253,8 @@ Proof.
   refine (conj _ (conj _ (conj _ (conj _ (conj _ _))))); auto. intros r k. rewrite P. tauto.
 Qed.
 
-Lemma shape_task_die s h p : AInv s h -> shape s (task_die_op s p false).
-Proof.
-  intros A. pose proof A as [A1 A2 A3 A4 A5 A6]. unfold task_die_op. cbn [orb].
-  destruct (lastt s p) as [k|] eqn:Lk; [|apply sh_quiet; quiet_tac].
-  destruct (find_task k (tasks s)) as [t|] eqn:F; [|apply sh_quiet; quiet_tac].
-  destruct (find_task_some _ _ _ F) as [In1 Id1].
-  destruct (A1 t In1) as (B1 & B2 & B3 & B4 & B5). rewrite B1, B2.
-  destruct (A4 p k Lk) as [_ Pe]. specialize (Pe t In1 Id1). rewrite Pe, Id1 in B3.
-  apply sh_closes. exists k. unfold on_shutdown. setters. rewrite B3.
-  unfold task_closed. setters. rewrite find_task_remove. setters.
-  repeat apply conj; auto.
-  + now rewrite upd_same.
-  + intros r Hr. now rewrite upd_other.
-Qed.
-
-Lemma main_shape c s o h : AInv s h -> prompt_op o = true -> shape s (main_handler c s o).
-Proof.
-  intros A PO. pose proof A as [A1 A2 A3 A4 A5 A6].
-  destruct o as [p|p|p|p|p|p|p b|p b|p a|p|p|p|p|p g|p|p|p|p|p g|p|p m|p m|p m|p m]; cbn [main_handler].
-  - destruct (conn s p); [apply sh_quiet; quiet_tac|].
-    apply shape_of_quiet. eapply quiet_frame; [|apply quiet_on_established]. repeat split.
-  - destruct (conn s p); [|apply sh_quiet; quiet_tac].
-    apply (shape_frame s (set_spend (set_conn s p false) (drop_peer p (spend s)))); [repeat split|].
-    apply (shape_on_closed _ h). eapply AInv_quiet; [exact A|..]; setters; auto. intros q0 k0; setters; tauto.
-  - destruct (conn s p); apply shape_of_quiet; [apply quiet_on_sub_in|quiet_tac].
-  - destruct (conn s p); [|apply sh_quiet; quiet_tac].
-    destruct (first_req p (spend s)); [|apply sh_quiet; quiet_tac].
-    apply shape_of_quiet. eapply quiet_frame; [|apply quiet_on_sub_out]. repeat split.
-  - destruct (conn s p); [|apply sh_quiet; quiet_tac].
-    destruct (first_req p (spend s)); [|apply sh_quiet; quiet_tac].
-    apply shape_of_quiet. eapply quiet_frame; [|apply quiet_on_open_fail]. repeat split.
-  - apply shape_of_quiet. apply quiet_on_dial_fail.
-  - destruct (hsI s p); [|apply sh_quiet; quiet_tac].
-    destruct b; [apply shape_on_hs_in_ok|apply shape_of_quiet, quiet_on_hs_err].
-  - destruct (hsO s p); [|apply sh_quiet; quiet_tac].
-    destruct b; [apply shape_on_hs_out_ok|apply shape_of_quiet, quiet_on_hs_err].
-  - destruct (hval s p); [|apply sh_quiet; quiet_tac].
-    apply shape_of_quiet. eapply quiet_frame; [|apply quiet_on_validation]. repeat split.
-  - destruct (existsb (N.eqb p) (timers s)); [|apply sh_quiet; quiet_tac].
-    apply shape_of_quiet. eapply quiet_frame; [|apply quiet_on_timer]. repeat split.
-  - destruct (hopen s p); [apply sh_quiet; quiet_tac|]. apply shape_of_quiet, quiet_on_open.
-  - destruct (hopen s p); [|apply sh_quiet; quiet_tac]. eapply shape_on_close; eauto.
-  - apply sh_quiet. quiet_tac.
-  - cbn in PO. destruct g; [discriminate|]. eapply shape_task_die; eauto.
-  - (* Release *)
-    rewrite map_ungate_id by (intros t Ht; destruct (A1 t Ht) as (B1 & B2 & _); auto).
-    rewrite finish_tasks_id by (intros t Ht; destruct (A1 t Ht) as (B1 & B2 & _); auto).
-    cbn [run_shutdowns N.eqb]. apply sh_quiet. unfold run_shutdowns. cbn. quiet_tac.
-  - destruct (conn s p); apply sh_quiet; quiet_tac.
-  - discriminate.
-  - apply sh_quiet. quiet_tac.
-  - cbn in PO. destruct g; [discriminate|]. eapply shape_task_die; eauto.
-  - destruct (usink s p), (hsink s p); apply sh_quiet; quiet_tac.
-  - apply sh_quiet. quiet_tac.
-  - apply sh_quiet. quiet_tac.
-  - apply sh_quiet. quiet_tac.
-  - apply sh_quiet. quiet_tac.
-Qed.
-
-Lemma notifs_facts s h o q : AInv s h -> In q (notifs_of s o) -> q = op_peer o /\ h q = true.
-Proof.
-  intros [A1 A2 A3 A4 A5 A6] H.
-  assert (G : forall p, In q (match lastt s p with Some k => if running s k then [p] else [] | None => [] end) ->
-                        q = p /\ h q = true).
-  { intros p Hq. destruct (lastt s p) as [k|] eqn:Lk; [|destruct Hq].
-    unfold running in Hq. destruct (find_task k (tasks s)) as [t|] eqn:F; [|destruct Hq].
-    destruct (t_closing t) eqn:TC; [destruct Hq|]. destruct Hq as [<-|[]]. split; auto.
-    destruct (find_task_some _ _ _ F) as [In1 Id1]. destruct (A4 p k Lk) as [_ Pe].
-    specialize (Pe t In1 Id1). destruct (A1 t In1) as (_ & _ & B3 & _). rewrite Pe in B3.
-    rewrite A5, B3. reflexivity. }
-  destruct o; cbn in H; try destruct H; cbn [op_peer]; apply G; auto.
-Qed.
-
-Lemma step_inv c s o h s' ev calls :
-  AInv s h -> KInv s -> prompt_op o = true -> step c s o = Some (s', ev, calls) ->
-  exists h', grammar h ev = Some h' /\ AInv s' h' /\ KInv s'.
-Proof.
-  intros A KI PO S. pose proof (main_shape c s o h A PO) as Sh.
-  destruct (main_handler c s o) as [[[s1 ev1] cl1]|] eqn:M.
-  - inversion Sh; subst.
-    + exists h. eapply step_of_quiet; eauto. intros q Hq. eapply notifs_facts; eauto.
-    + eexists. eapply step_of_closes; eauto. intros q Hq.
-      destruct (notifs_facts _ _ _ _ A Hq) as [-> _].
-      (* the closing peer is the peer of the event *)
-      destruct o; cbn in Hq; try destruct Hq; cbn [op_peer main_handler] in *;
-        unfold ok, task_die_op in M;
-        repeat match type of M with context [match ?x with _ => _ end] => destruct x end;
-        inversion M; reflexivity.
-    + eexists. eapply step_of_opens; eauto.
-      destruct o; cbn; auto; exfalso; cbn [main_handler] in M;
-        unfold ok, task_die_op in M;
-        repeat match type of M with context [match ?x with _ => _ end] => destruct x end; inversion M.
-  - unfold step in S. rewrite M in S. discriminate.
-Qed.
-
-Lemma KInv_init : KInv init.
-Proof. intros p k H. discriminate H. Qed.
-
 Definition events (r : list (st * list uev * list call)) : list uev :=
   flat_map (fun x => snd (fst x)) r.
-
-Lemma run_grammar c ops : forall s h,
-  AInv s h -> KInv s -> forallb prompt_op ops = true ->
-  exists h', grammar h (events (fst (run c s ops))) = Some h'.
-Proof.
-  induction ops as [|o t IH]; intros s h A KI P; cbn [run fst events flat_map].
-  - exists h. reflexivity.
-  - cbn in P. apply andb_true_iff in P. destruct P as [P1 P2].
-    destruct (step c s o) as [[[s1 ev] calls]|] eqn:S.
-    + destruct (step_inv _ _ _ _ _ _ _ A KI P1 S) as (h1 & G1 & A1 & K1).
-      destruct (IH s1 h1 A1 K1 P2) as (h2 & G2).
-      destruct (run c s1 t) as [r b]. cbn [fst events flat_map snd] in *.
-      exists h2. rewrite grammar_app, G1. exact G2.
-    + exists h. reflexivity.
-Qed.
-
-(* every reachable state of a prompt run satisfies the invariant: used for the corollaries *)
-Lemma run_inv c ops : forall s h,
-  AInv s h -> KInv s -> forallb prompt_op ops = true ->
-  forall x, In x (fst (run c s ops)) -> exists h', AInv (fst (fst x)) h' /\ KInv (fst (fst x)).
-Proof.
-  induction ops as [|o t IH]; intros s h A KI P x; cbn [run fst].
-  - intros [].
-  - cbn in P. apply andb_true_iff in P. destruct P as [P1 P2].
-    destruct (step c s o) as [[[s1 ev] calls]|] eqn:S; [|intros []].
-    destruct (step_inv _ _ _ _ _ _ _ A KI P1 S) as (h1 & G1 & A1 & K1).
-    specialize (IH s1 h1 A1 K1 P2). destruct (run c s1 t) as [r b]. cbn [fst] in *.
-    intros [<-|H]; eauto.
-Qed.
 
 (* ------------------------------------------------------------------ Opened needs an accepted inbound *)
 Lemma quiet_no_opened s s1 ev cl p d : quiet s (Some (s1, ev, cl)) -> ~ In (UOpened p d) ev.
@@ -686,6 +279,12 @@ Proof.
     intros [X|X]; [discriminate|]. eapply IH; eauto.
 Qed.
 
+Lemma shut_ev_ev s p q d : ~ In (UOpened q d) (shut_ev s p).
+Proof.
+  unfold shut_ev. destruct (ps s p) as [[]|]; try (intros []). destruct (task_closed s k); [|intros []].
+  intros [X|[]]. discriminate X.
+Qed.
+
 Definition accepted_in (x : option pstate) (d : dir) : Prop :=
   (exists i, x = Some (Validating d ONeg i) /\ i = IOpen) \/
   (exists o, x = Some (Validating d o ISending) /\ o = OOpen).
@@ -704,7 +303,7 @@ Qed.
 Lemma main_opened c s o s1 ev cl p d :
   main_handler c s o = Some (s1, ev, cl) -> In (UOpened p d) ev -> accepted_in (ps s p) d.
 Proof.
-  destruct o as [q|q|q|q|q|q|q b|q b|q a|q|q|q|q|q g|q|q|q|q|q g|q|q m|q m|q m|q m]; cbn [main_handler]; intros M HIn.
+  destruct o as [q|q|q|q|q|q|q b|q b|q a|q|q|q|q|q g|q older|q|q|q|q g|q|q m|q m|q m|q m]; cbn [main_handler]; intros M HIn.
   - destruct (conn s q); [inversion M; subst; destruct HIn|].
     exfalso. eapply quiet_no_opened; [|exact HIn]. rewrite <- M. apply quiet_on_established.
   - destruct (conn s q); [|inversion M; subst; destruct HIn].
@@ -713,7 +312,7 @@ Proof.
     destruct x as [|b|po| |y|d0 o i|k]; try (intros M; inversion M; subst; cbn in HIn; intuition discriminate).
     + destruct o, i; intros M; inversion M; subst; cbn in HIn; intuition discriminate.
     + destruct (signal _ k) as [s2 e2] eqn:Sg. intros M; inversion M; subst.
-      exfalso. eapply signal_ev; eauto.
+      destruct HIn as [X|HIn]; [discriminate X|]. exfalso. eapply signal_ev; eauto.
   - destruct (conn s q); [|inversion M; subst; destruct HIn].
     exfalso. eapply quiet_no_opened; [|exact HIn]. rewrite <- M. apply quiet_on_sub_in.
   - destruct (conn s q); [|inversion M; subst; destruct HIn].
@@ -749,21 +348,25 @@ Proof.
   - destruct (hopen s q); [|inversion M; subst; destruct HIn].
     revert M. unfold on_close. destruct (ps s q) as [x|]; [|intros M; inversion M; subst; destruct HIn].
     destruct x as [|b|po| |y|d0 o i|k]; try (intros M; inversion M; subst; destruct HIn).
-    destruct (signal s k) as [s2 e2] eqn:Sg. intros M; inversion M; subst. exfalso. eapply signal_ev; eauto.
+    destruct (signal s k) as [s2 e2] eqn:Sg. intros M; inversion M; subst.
+    destruct HIn as [X|HIn]; [discriminate X|]. exfalso. eapply signal_ev; eauto.
   - inversion M; subst; destruct HIn.
   - revert M. unfold task_die_op. destruct (lastt s q); [|intros M; inversion M; subst; destruct HIn].
     destruct (find_task n (tasks s)) as [t|]; [|intros M; inversion M; subst; destruct HIn].
     destruct (t_closing t); [intros M; inversion M; subst; destruct HIn|].
-    destruct (g || t_gated t); intros M; inversion M; subst; cbn in HIn; intuition discriminate.
+    destruct (g || t_gated t); intros M; inversion M; subst; [destruct HIn|].
+    destruct HIn as [X|HIn]; [discriminate X|]. exfalso. eapply shut_ev_ev; eauto.
   - revert M. destruct (finish_tasks q _) as [[l' e'] n'] eqn:F. intros M; inversion M; subst.
-    exfalso. eapply finish_tasks_ev; eauto.
+    exfalso. apply in_app_or in HIn. destruct HIn as [HIn|HIn]; [eapply finish_tasks_ev; eauto|].
+    destruct (n' =? 0); [destruct HIn|eapply shut_ev_ev; eauto].
   - destruct (conn s q); inversion M; subst; destruct HIn.
   - revert M. destruct (lastt s q); intros M; inversion M; subst; destruct HIn.
   - inversion M; subst; destruct HIn.
   - revert M. unfold task_die_op. destruct (lastt s q); [|intros M; inversion M; subst; destruct HIn].
     destruct (find_task n (tasks s)) as [t|]; [|intros M; inversion M; subst; destruct HIn].
     destruct (t_closing t); [intros M; inversion M; subst; destruct HIn|].
-    destruct (g || t_gated t); intros M; inversion M; subst; cbn in HIn; intuition discriminate.
+    destruct (g || t_gated t); intros M; inversion M; subst; [destruct HIn|].
+    destruct HIn as [X|HIn]; [discriminate X|]. exfalso. eapply shut_ev_ev; eauto.
   - revert M. destruct (usink s q), (hsink s q); intros M; inversion M; subst; destruct HIn.
   - inversion M; subst; destruct HIn.
   - inversion M; subst; destruct HIn.
@@ -775,7 +378,21 @@ Lemma task_dies_ev s k s' ev p d : task_dies s k = (s', ev) -> ~ In (UOpened p d
 Proof.
   unfold task_dies. destruct (find_task k (tasks s)) as [t|]; [|intros H; inversion H; subst; auto].
   destruct (t_closing t); [intros H; inversion H; subst; auto|].
-  destruct (t_gated t); intros H; inversion H; subst; cbn; [tauto|]. intros [E|[]]. discriminate.
+  destruct (t_gated t); intros H; inversion H; subst; cbn; [tauto|]. intros [E|E]; [discriminate E|].
+  eapply shut_ev_ev; eauto.
+Qed.
+
+(* what the user is handed contains an Opened only if the emitted events do *)
+Lemma delivered_opened ev : forall s p d, In (UOpened p d) (delivered s ev) -> In (UOpened p d) ev.
+Proof.
+  induction ev as [|e t IH]; intros s p d; cbn [delivered]; [tauto|].
+  destruct e; cbn [closed_report].
+  - destruct (hval s p0); intros [X|X]; [discriminate X|right; eapply IH; eauto|discriminate X|right; eapply IH; eauto].
+  - intros [X|X]; [left; exact X|right; eapply IH; eauto].
+  - destruct (current s p0 None); [intros [X|X]; [discriminate X|]|intros X]; right; eapply IH; eauto.
+  - intros [X|X]; [discriminate X|right; eapply IH; eauto].
+  - intros [X|X]; [discriminate X|right; eapply IH; eauto].
+  - destruct (current s p0 (Some k)); [intros [X|X]; [discriminate X|]|intros X]; right; eapply IH; eauto.
 Qed.
 
 Lemma kill_tasks_ev ks : forall s s' ev p d, kill_tasks s ks = (s', ev) -> ~ In (UOpened p d) ev.
@@ -796,62 +413,10 @@ Proof.
   destruct (kill_tasks s2 ks) as [s4 ev4] eqn:K.
   destruct (drain s4 ev4) as [[s5 x] y]. intros H; inversion H; subst.
   intros HIn. apply in_app_or in HIn. destruct HIn as [HIn|HIn].
-  - eapply main_opened; eauto.
+  - apply delivered_opened in HIn. eapply main_opened; eauto.
   - apply in_app_or in HIn. destruct HIn as [HIn|HIn].
     + exfalso. apply in_map_iff in HIn. destruct HIn as (z & E & _). discriminate.
-    + exfalso. eapply kill_tasks_ev; eauto.
-Qed.
-
-(* ------------------------------------------------------------------ Closed on disconnect / user close *)
-Lemma step_conn_closed c s h p k s' ev calls :
-  AInv s h -> conn s p = true -> ps s p = Some (Open k) ->
-  step c s (ConnClosed p) = Some (s', ev, calls) -> In (UClosed p) ev.
-Proof.
-  intros A C Hp. unfold step. cbn [main_handler]. rewrite C. unfold on_closed. setters. rewrite Hp.
-  erewrite (signal_open s h _ p k A Hp) by reflexivity.
-  match goal with |- context [drain ?a ?b] => destruct (drain a b) as [[s2 dr] ks] end.
-  destruct (kill_tasks s2 ks) as [s4 ev4].
-  destruct (drain s4 ev4) as [[s5 x] y].
-  intros H; inversion H; subst. left; reflexivity.
-Qed.
-
-Lemma step_cmd_close c s h p k s' ev calls :
-  AInv s h -> ps s p = Some (Open k) ->
-  step c s (CmdClose p) = Some (s', ev, calls) -> In (UClosed p) ev.
-Proof.
-  intros A Hp. unfold step. cbn [main_handler].
-  assert (HO : hopen s p = true).
-  { destruct A as [_ _ _ _ A5 A6]. rewrite A6, A5, Hp. reflexivity. }
-  rewrite HO. unfold on_close. rewrite Hp.
-  erewrite (signal_open s h s p k A Hp) by reflexivity.
-  match goal with |- context [drain ?a ?b] => destruct (drain a b) as [[s2 dr] ks] end.
-  destruct (kill_tasks s2 ks) as [s4 ev4].
-  destruct (drain s4 ev4) as [[s5 x] y].
-  intros H; inversion H; subst. left; reflexivity.
-Qed.
-
-(* ------------------------------------------------------------------ statements used by Properties.v *)
-Lemma alternation_prompt c ops :
-  forallb prompt_op ops = true ->
-  exists h, grammar (fun _ => false) (events (fst (run c init ops))) = Some h.
-Proof. intros P. eapply run_grammar; eauto. apply AInv_init. apply KInv_init. Qed.
-
-Lemma closed_on_disconnect_prompt c ops x p k s' ev calls :
-  forallb prompt_op ops = true -> In x (fst (run c init ops)) ->
-  conn (fst (fst x)) p = true -> ps (fst (fst x)) p = Some (Open k) ->
-  step c (fst (fst x)) (ConnClosed p) = Some (s', ev, calls) -> In (UClosed p) ev.
-Proof.
-  intros P HIn C Hp S. destruct (run_inv c ops init _ AInv_init KInv_init P x HIn) as (h & A & _).
-  eapply step_conn_closed; eauto.
-Qed.
-
-Lemma closed_on_user_close_prompt c ops x p k s' ev calls :
-  forallb prompt_op ops = true -> In x (fst (run c init ops)) ->
-  ps (fst (fst x)) p = Some (Open k) ->
-  step c (fst (fst x)) (CmdClose p) = Some (s', ev, calls) -> In (UClosed p) ev.
-Proof.
-  intros P HIn Hp S. destruct (run_inv c ops init _ AInv_init KInv_init P x HIn) as (h & A & _).
-  eapply step_cmd_close; eauto.
+    + exfalso. apply delivered_opened in HIn. eapply kill_tasks_ev; eauto.
 Qed.
 
 (* witnesses *)
@@ -861,7 +426,7 @@ Definition open_by_user : list op :=
   [Established 0; CmdOpen 0; SubIn 0; HsIn 0 true; SubOut 0; HsIn 0 true; HsOut 0 true].
 Definition w_slow_close : list op :=
   open_by_user ++ [Gate 0; CmdClose 0; SubIn 0; HsIn 0 true; Validate 0 true; HsIn 0 true; SubOut 0;
-                   HsOut 0 true; Release 0].
+                   HsOut 0 true; Release 0 false].
 Definition w_failed_sid : list op :=
   [Established 0; SubIn 0; HsIn 0 true; Validate 0 true; OpenFail 0; CmdOpen 0].
 
